@@ -40,7 +40,7 @@ pub fn typed_registry() -> Vec<Native> {
     let c = |name: &str, arity: usize| Native { name: name.into(), arity, beh: "call", types: vec!["value"; arity] };
     vec![
         t("t_i", &["i64"]), t("t_f", &["f64"]), t("t_b", &["bool"]), t("t_s", &["str"]), t("t_v", &["value"]),
-        t("t_t", &["table"]), t("t_n", &["nilable_i64"]),
+        t("t_t", &["table"]), t("t_n", &["nilable_i64"]), t("t_ns", &["nilable_str"]), t("t_ins", &["i64", "nilable_str"]),
         t("t_if", &["i64", "f64"]), t("t_sv", &["str", "value"]),
         t("t_ifb", &["i64", "f64", "bool"]), t("t_vsi", &["value", "str", "i64"]),
         t("t_ifbs", &["i64", "f64", "bool", "str"]), t("t_svti", &["str", "value", "table", "i64"]),
@@ -439,6 +439,14 @@ fn t_n(vm: &mut Vm<Host>, a: Nilable<i64>) -> R {
     lg(vm, "t_n", vec![a.0.map(jint).unwrap_or_else(nilv)]);
     Ok(Value::Integer(a.0.unwrap_or(-1)))
 }
+fn t_ns(vm: &mut Vm<Host>, a: Nilable<&str>) -> R {
+    lg(vm, "t_ns", vec![a.0.map(jstr).unwrap_or_else(nilv)]);
+    Ok(Value::Integer(a.0.map(|s| s.len() as i64).unwrap_or(-1)))
+}
+fn t_ins(vm: &mut Vm<Host>, a: i64, b: Nilable<&str>) -> R {
+    lg(vm, "t_ins", vec![jint(a), b.0.map(jstr).unwrap_or_else(nilv)]);
+    Ok(Value::Integer(a))
+}
 fn t_if(vm: &mut Vm<Host>, a: i64, b: f64) -> R { lg(vm, "t_if", vec![jint(a), real_to_json(b)]); Ok(Value::Integer(a)) }
 fn t_sv(vm: &mut Vm<Host>, a: &str, b: Value) -> R { lg(vm, "t_sv", vec![jstr(a), deep(b, 0)]); Ok(Value::Integer(a.len() as i64)) }
 fn t_ifb(vm: &mut Vm<Host>, a: i64, b: f64, c: bool) -> R { lg(vm, "t_ifb", vec![jint(a), real_to_json(b), jint(c as i64)]); Ok(Value::Integer(a)) }
@@ -476,6 +484,8 @@ pub fn register_typed(vm: &mut Vm<Host>) {
     vm.register_native_function("t_v", into_f1(t_v)).unwrap();
     vm.register_native_function("t_t", into_f1(t_t)).unwrap();
     vm.register_native_function("t_n", into_f1(t_n)).unwrap();
+    vm.register_native_function("t_ns", into_f1(t_ns)).unwrap();
+    vm.register_native_function("t_ins", into_f2(t_ins)).unwrap();
     vm.register_native_function("t_if", into_f2(t_if)).unwrap();
     vm.register_native_function("t_sv", into_f2(t_sv)).unwrap();
     vm.register_native_function("t_ifb", into_f3(t_ifb)).unwrap();
